@@ -261,6 +261,7 @@ class H2Server(TimerMixin, Peer):
         self.max_processed = 0
         self.cur_sid = 0
         self.refused = set()
+        self.early = set()         # streams whose response head went out before the request ended
         self.close_when_drained = False
 
     TRACKED = ("max_concurrent_streams", "initial_window_size", "max_frame_size")
@@ -447,6 +448,11 @@ class H2Server(TimerMixin, Peer):
                 # processed, so that a GOAWAY can still refuse it
                 self.cur_sid = ev.stream_id
                 self._check_counted_events(now)
+                plan = w.plans.get(tok) or {}
+                if plan.get("h2_early_head") and ev.stream_ended is None \
+                        and not self.goaway_sent and not self.closed:
+                    # a server may answer before the request body has been received
+                    self._early_head(now, ev.stream_id, tok, plan)
             elif isinstance(ev, h2.events.DataReceived):
                 n = ev.flow_controlled_length
                 self.ndata += n
@@ -566,6 +572,20 @@ class H2Server(TimerMixin, Peer):
             self._flush(now)
 
     # -- responses ---------------------------------------------------------------------------
+    def _early_head(self, now, sid, tok, plan):
+        hdrs = [(b":status", b"%d" % plan["status"])] + [
+            (k.lower(), v) for k, v in plan["headers"]
+            if k.lower() not in (b"connection", b"transfer-encoding", b"keep-alive")]
+        try:
+            self.c.send_headers(sid, hdrs, end_stream=False)
+        except h2.exceptions.ProtocolError as e:
+            self.w.log("h2_srv_event_skipped", self.wire.id, "early-head", repr(e))
+            return
+        self.early.add(sid)
+        self.w.probes["h2_early_head"] += 1
+        self.w.log("h2_early_head", self.wire.id, sid, tok)
+        self._flush(now)
+
     def _respond(self, now, sid):
         tok = self.tokens.get(sid) or b"?"
         plan = self.world.plans.get(tok) or self.cfg.get("default_plan") or default_plan(tok)
@@ -579,10 +599,15 @@ class H2Server(TimerMixin, Peer):
                 if k.lower() not in (b"connection", b"transfer-encoding", b"keep-alive")]
             n = plan.get("body_len", 0)
             try:
-                for code in plan.get("interim", ()):
-                    if code != 101:
-                        self.c.send_headers(sid, [(b":status", b"%d" % code)])
-                self.c.send_headers(sid, hdrs, end_stream=(n == 0 and not plan.get("h2_empty_data")))
+                if sid in self.early:
+                    if n == 0 and not plan.get("h2_empty_data"):
+                        self.c.end_stream(sid)
+                else:
+                    for code in plan.get("interim", ()):
+                        if code != 101:
+                            self.c.send_headers(sid, [(b":status", b"%d" % code)])
+                    self.c.send_headers(sid, hdrs,
+                                        end_stream=(n == 0 and not plan.get("h2_empty_data")))
             except h2.exceptions.ProtocolError as e:
                 self.w.log("h2_srv_event_skipped", self.wire.id, "respond", repr(e))
                 return
